@@ -186,7 +186,34 @@ class ProxyArray(ProxyGetitem):
         return posts
 
 
+class ProxyShape(ProxyGetitem):
+    """BasinProxyFeature.shape: the shape of the *mapped* data -- as many events as the map has entries, the
+    event shape of the origin (code that trusts the shape, such as the unfiltered export, stores that many events)"""
+    qualname = "BasinProxyFeature.shape"
+    params = ("self",)
+    inline = set()
+
+    def __init__(self, scalar):
+        ProxyGetitem.__init__(self, scalar, "all")
+        self.name = f"BasinProxyFeature.shape[{'scalar' if scalar else 'image-like'}]"
+
+    def inputs(self, ctx):
+        d = ProxyGetitem.inputs(self, ctx)
+        return {"self": d["self"]}
+
+    def ensures(self, ctx, old, a, result):
+        g = self._g
+        if not isinstance(result, tuple) or not result:
+            return [("the shape is a tuple", z3.BoolVal(False))]
+        rest = tuple(g.data.item_shape)
+        return [("the first axis counts the events of the map", to_z3(result[0]) == g.bm.n),
+                ("the other axes are those of one event of the origin",
+                 z3.BoolVal(len(result) == 1 + len(rest)) if len(result) != 1 + len(rest)
+                 else z3.And(*[to_z3(x) == to_z3(y) for x, y in zip(result[1:], rest)]) if rest else z3.BoolVal(True))]
+
+
 UNITS = [ProxyGetitem(s, a) for s in (True, False) for a in ("int", "slice", "all", "array", "mask")]
+UNITS += [ProxyShape(True), ProxyShape(False)]
 UNITS += [ProxyArray(dt, False) for dt in ("None", "int64", "float32")] + [ProxyArray("None", True)]
 TRUSTED = [OriginFeat("OriginFeature.__getitem__")]
 TRUSTED_BASE = ["numpy fancy / boolean indexing (N-FANCY, N-WHERE, N-MASK)", "opaque event payloads",
